@@ -85,9 +85,10 @@ func genProtectedTx(rng *rand.Rand, g *GenesisSpec) Op {
 	case k < 80: // factory creating with value
 		op.To, op.Gas, op.Data, op.Val = "c:factory", "i+400000", hexWord(0), "10"
 	case k < 86: // fund the dying contracts with a second denomination
-		return Op{K: "bank", W: w, To: "c:" + pick(rng, "sd", "sd2", "sd3"), Val: "55", Denom: "utwo", Price: "b+1", Gas: "200000"}
+		return Op{K: "bank", W: w, To: "c:" + pick(rng, "sd", "sd2", "sd3"), Val: "55", Denom: "utwo", Price: "b+1", Gas: "200000", Typ: pick(rng, 0, 2), Tip: "1"}
 	case k < 90: // fund a vesting account natively
-		return Op{K: "bank", W: w, To: vest, Val: "1000", Denom: pick(rng, BaseDenom, "utwo"), Price: "b+1", Gas: "200000"}
+		// (Cosmos txs with and without the dynamic-fee extension option, tight and ample gas)
+		return Op{K: "bank", W: w, To: vest, Val: "1000", Denom: pick(rng, BaseDenom, "utwo"), Price: pick(rng, "b+1", "b*2"), Gas: pick(rng, "200000", "120000", "95000"), Typ: pick(rng, 0, 2), Tip: pick(rng, "0", "1")}
 	default:
 		return genMixedTx(rng, g)
 	}
